@@ -585,7 +585,7 @@ class Arc(Term):
         s = self.start
         e = self.end
         r = e - s
-        c = s + r
+        c = e
         left = s > e
         right = s < e
         y = (
@@ -593,7 +593,7 @@ class Arc(Term):
             * np.where(np.isnan(x), np.nan, 1.0)
             * np.where(
                 (left & (c <= x) & (x <= s)) | (right & (s <= x) & (x <= c)),
-                np.sqrt(r**2 - np.square(x - c)) / abs(r),
+                np.sqrt(r * r - np.square(x - c)) / abs(r),
                 (left & (x < e)) | (right & (x > e)),
             )
         )
@@ -621,9 +621,9 @@ class Arc(Term):
         s = self.start
         e = self.end
         r = e - s
-        c = s + r
+        c = e
         sign = -1 if s < e else 1
-        x = c + sign * np.sqrt(r**2 - np.square(y * r / h))
+        x = c + sign * np.sqrt(r * r - np.square(y * r / h))
         return x  # type: ignore
 
     def is_monotonic(self) -> bool:
@@ -1831,13 +1831,12 @@ class SemiEllipse(Term):
         s = min(self.start, self.end)
         e = max(self.start, self.end)
         r = (e - s) / 2
-        c = s + r
         y = (
             self.height
             * np.where(np.isnan(x), np.nan, 1.0)
             * np.where(
                 (x >= s) & (x <= e),
-                np.sqrt(r**2 - np.square(x - c)) / r,
+                np.sqrt((x - s) * (e - x)) / r,
                 0,
             )
         )
